@@ -20,13 +20,20 @@ from . import text_common as X
 LEVEL = "model_checking"
 SIGMA = ["a", "#", ":", ";", "\\", "/", "\n", "\r", " "]
 SOUP = "a:b;c\\d//e\nf #g"
-CONTEXTS = ["value", "attacks", "displaybpm", "key", "f0", "f1", "f2", "f3", "f4", "notes", "extra0", "extra1"]
+CONTEXTS = ["value", "attacks", "displaybpm", "key", "keyonly_key", "f0", "f1", "f2", "f3", "f4", "notes", "extra0", "extra1"]
 POOL = ["\x00", "\x01", "\x1f", "\x7f", "\x85", " ", " ", "﻿", "́", "\U0001f600", "ß", "İ", "ǅ", "\t", "\x0b", "\x0c", "\x1c", "\xa0",
         "#", ":", ";", "\\", "/", "\n", "\r", " ", "a", "Z", "0", "=", ",", "&", "[", "]", "*", "'", '"', "%", "　", "\ud800"]
 
 
 def state_for(context, v):
     """A tiny model simfile with v in the given context, or None when v is outside that context's domain."""
+    if context == "keyonly_key":
+        # the key of a key-only (None) property: escaped like any key
+        m = state_for("key", v)
+        if m is None:
+            return None
+        m["items"] = [(k, None if val == "x" and k not in ("TITLE",) else val) for k, val in m["items"]]
+        return m
     items = [("TITLE", "t")]
     fields = ["dance-single", "d", "Easy", "1", "0,0", "0000"]
     extra = None
